@@ -39,7 +39,17 @@ class C14(core.Prop):
         ]
 
     def gen_case(self, rng, i):
-        return {'examples': rx.gen_examples(rng), 'opts': rx.gen_opts(rng), 'size': rx.gen_size(rng),
+        opts = rx.gen_opts(rng)
+        if rng.random() < 0.15:
+            # pruning options: here the counts matter (a frequency dictionary must still equal the list it stands for)
+            if rng.random() < 0.6:
+                opts['min_strings_per_pattern'] = rng.choice([1, 2, 2, 3])
+            else:
+                opts['max_patterns'] = rng.choice([1, 2, 3])
+        ex = rx.gen_examples(rng)
+        if 'min_strings_per_pattern' in opts or 'max_patterns' in opts:
+            ex = [s_ for s_ in ex for _ in range(rng.choice([1, 1, 2, 3]))]      # repeats
+        return {'examples': ex, 'opts': opts, 'size': rx.gen_size(rng),
                 'seed': rng.choice([None, 0, 1, 7, 2024]), 'perm_seed': rng.randrange(10 ** 6)}
 
     def translate(self):
@@ -227,6 +237,28 @@ class C14(core.Prop):
         r, e, _, _ = rx.run_extract(ex, opts, size, seed, 'dict')
         if e is None and r != base:
             fail('dict-differs', 'list %r dict %r' % (base, r), 'dict-differs' + sk)
+        # byte strings with an encoding: a list and a frequency dictionary of the same examples
+        if all(isinstance(s_, str) for s_ in ex):
+            try:
+                bl = [s_.encode('utf-8') for s_ in ex]
+            except UnicodeEncodeError:
+                bl = None
+            if bl is not None:
+                bd = {}
+                for b_ in bl:
+                    bd[b_] = bd.get(b_, 0) + 1
+                kw_ = dict(opts)
+                if size:
+                    kw_['size'] = rx.rexpy.Size(**size)
+                for fname, arg in (('bytes-list', bl), ('bytes-dict', bd)):
+                    st_a = random.getstate()
+                    try:
+                        r = rx.rexpy.extract(arg, seed=seed, encoding='utf-8', **kw_)
+                    except Exception as e_:   # noqa
+                        r = 'exc:' + type(e_).__name__
+                    random.setstate(st_a)
+                    if r != base:
+                        fail('bytes-differs', 'list %r, %s %r' % (base, fname, r), 'bytes-differs:' + fname + sk)
         # pandas column forms (pdextract takes no options): object / str / categorical columns, categoricals with
         # categories no row uses, several columns - the result depends only on the strings that occur
         if not opts and not size:
@@ -254,8 +286,8 @@ class C14(core.Prop):
                 self.count('series_forms')
                 if r != base:
                     fail('series-differs', 'list %r, %s column %r' % (base, fname, r), 'series-differs:' + fname + sk)
-        # repeating an example changes nothing
-        if ex:
+        # repeating an example changes nothing (without pruning options: with them the counts are meant to matter)
+        if ex and 'min_strings_per_pattern' not in opts and 'max_patterns' not in opts:
             e2 = list(ex) + [rng.choice([s for s in ex])]
             r, e, _, _ = rx.run_extract(e2, opts, size, seed, 'list')
             if e is None and r != base:
